@@ -108,22 +108,34 @@ def run(ctx):
                 ctx.ok("R1", "patterns are matched against os.path.basename(filename)", f"{sel.module.relpath}:{cs.node.lineno}")
             else:
                 ctx.violate("R1", f"patterns are matched against `{src_of(cs.node.args[0]) if cs.node.args else '?'}`, not the base name (directories containing pattern text would match)", sel, cs.node)
-        # the auto branch returns a module only when pattern matches AND hasattr(module, attrname)
-        for r in [n for s in auto_branch for n in ast.walk(s) if isinstance(n, ast.Return)]:
-            pm = prog.parents(sel)
-            cur, conds = r, []
-            while id(cur) in pm:
-                par = pm[id(cur)]
-                if isinstance(par, ast.If) and any(cur is s for s in par.body):
-                    conds.append(par.test)
-                cur = par
-            has_match = any(any(cs.node is n for n in ast.walk(c)) for c in conds for cs in fn_calls)
-            has_attr = any(_hasattr_call(n, pattr) for c in conds for n in ast.walk(c))
-            both_and = all(not (isinstance(c, ast.BoolOp) and isinstance(c.op, ast.Or)) for c in conds)
-            if has_match and has_attr and both_and:
-                ctx.ok("R1", "a module is selected only if a pattern matches AND it supports the operation", f"{sel.module.relpath}:{r.lineno}")
-            else:
-                ctx.violate("R1", "automatic selection returns a module without requiring both a pattern match and support for the operation", sel, r)
+        # the registry loop is left with a module only when a pattern matches AND hasattr(module, attrname)
+        pm = prog.parents(sel)
+        reg_loops = [n for s in auto_branch for n in ast.walk(s) if isinstance(n, ast.For) and "FORMAT_MODULES" in src_of(n.iter)]
+        if len(reg_loops) != 1:
+            ctx.violate("R1", "automatic selection is not a single loop over the registry", sel, d, construct="registry loop")
+        else:
+            lp = reg_loops[0]
+            if not (isinstance(lp.iter, ast.Call) and isinstance(lp.iter.func, ast.Attribute) and lp.iter.func.attr in ("values", "items") and src_of(lp.iter.func.value) == "FORMAT_MODULES" and not lp.iter.args):
+                ctx.violate("R1", f"the registry is iterated as `{src_of(lp.iter)}` (not in registry order)", sel, lp)
+            exits = [n for s in lp.body for n in ast.walk(s) if isinstance(n, (ast.Return, ast.Break))]
+            if not exits:
+                ctx.violate("R1", "the registry loop never selects a module", sel, lp, construct="registry loop exits")
+            for r in exits:
+                cur, conds = r, []
+                while id(cur) in pm and pm[id(cur)] is not lp:
+                    par = pm[id(cur)]
+                    if isinstance(par, ast.If) and any(cur is s for s in par.body):
+                        conds.append(par.test)
+                    elif isinstance(par, ast.If):
+                        conds.append(ast.UnaryOp(op=ast.Not(), operand=par.test))
+                    cur = par
+                has_match = any(any(cs.node is n for n in ast.walk(c)) for c in conds for cs in fn_calls if not isinstance(c, ast.UnaryOp))
+                has_attr = any(_hasattr_call(n, pattr) for c in conds if not isinstance(c, ast.UnaryOp) for n in ast.walk(c))
+                both_and = all(not (isinstance(c, ast.BoolOp) and isinstance(c.op, ast.Or)) for c in conds)
+                if has_match and has_attr and both_and:
+                    ctx.ok("R1", "the search stops at a module only if a pattern matches AND it supports the operation", f"{sel.module.relpath}:{r.lineno}")
+                else:
+                    ctx.violate("R1", "the registry search stops at a module without requiring both a pattern match and support for the operation (a later matching format that supports it is never tried)", sel, r)
         # explicit branch: FORMAT_MODULES[fmt] only after hasattr check
         exp_branch = d.orelse if isinstance(d.test.ops[0], ast.Is) else d.body
         exp_stmts = exp_branch if exp_branch else [s for s in sel.body if s.lineno > d.lineno]
